@@ -166,9 +166,11 @@ func zzH_C12_builder() {
 	cv := zzverif.Choose("prev.version", 3) + 1
 	zzverif.Assume(prev.CurrVersion == params.YouVersion(cv))
 	zzverif.Assume(zzC12Inv(prev, n, g, ps[cv]))
-	// the client halts by design when the chain switches to a version it does not know
-	zzverif.Note("builder harness: a pending NextVersion is one of the locally known versions (otherwise the client stops with logging.Crit by design)")
-	zzverif.Assume(prev.NextVersion <= 3)
+	// the builder's client knows versions 1..3; the pending NextVersion may also be 4, a
+	// version this client has not been upgraded to yet (it then abstains from approving, but
+	// what it builds - the switch at the announced round included - must still be what
+	// the verifier of an upgraded node demands; the client itself halts afterwards by design)
+	zzverif.Assume(prev.NextVersion <= 4)
 
 	curr := &types.Header{Number: new(big.Int).SetUint64(n + 1)}
 	if err := ProcessYouVersionState(prev, curr); err != nil {
@@ -176,6 +178,8 @@ func zzH_C12_builder() {
 		return
 	}
 	zzverif.Reach("built")
+	// the verifying node knows version 4 as well
+	params.Versions[4] = params.YouParams{Version: 4}
 	zzverif.Assert(VerifyYouVersionState(prev, curr) == nil, "verifier accepts what the builder derives")
 	zzverif.Reach("end")
 }
